@@ -766,3 +766,4 @@ MANIFEST = {
     "for float/ndarray magnitudes are not compared (IEEE inf/nan semantics).",
     "ref": "DESIGN.md §4 C03",
 }
+MANIFEST["text"] += ' Operands whose units combine an offset unit with other units (or carry it at a power other than 1) are refused by * and / whatever units the other operand is expressed in, in both orders and both registry modes.'
